@@ -46,6 +46,7 @@ def prefer_types_sites(F, R, tag="C09-X"):
 
 
 def run(F, R, tier):
+    _round6(F, R)
     ti = F.body(T + "transform_item")
     mm = [n for n in ti["_nodes"] if n["k"] == "Match" and tyc(F, n["scrut"], "::ModuleDecl") and peel(n["scrut"]).get("res") == "local"]
     if R.ob("C09-S", "module declaration match found", len(mm) == 1, "shape changed", ti["file"]):
@@ -432,3 +433,27 @@ def run(F, R, tier):
         R.ob("C09-S", "`./` is prepended exactly when the relative path does not start with `../`", bool(climbs) and all(not x.pol for x in climbs) and not other,
              "transform_module_specifier decides the `./` prefix by another test than `!relative.starts_with(\"../\")` (%s): a types module whose path starts with a dot-file or dot-directory is emitted as a bare specifier that does not resolve" % [x.text()[:40] for x in g if x.kind == "cond"][:3],
              where(n), key="C09|C09-S|dot-slash-prefix")
+
+
+def _round6(F, R):
+    # C09-T: a name that reaches a module through `export *` is traced hop by
+    # hop: the module traced next is the re-exporting hop (`referrer_module` of
+    # the ReExportAllPath), not the module that finally declares the name --
+    # otherwise the `export *` statements in between are never marked public and
+    # the emitted chain no longer exports the name
+    am = [b for b in F.bodies if b["path"].endswith("PublicRangeFinder::analyze_module_info")]
+    if not R.ob("C09-T", "tracer found", len(am) == 1, "analyze_module_info not found"):
+        return
+    am = am[0]
+    ok = False
+    for m in [n for n in am["_nodes"] if n["k"] == "Match" and tyc(F, n["scrut"], "ResolvedExportOrReExportAllPath")]:
+        for arm in m["arms"]:
+            if "ReExportAllPath" in pat_text(arm["pat"]).split("(")[0]:
+                binds = {b_["lid"] for b_ in pat_bindings(arm["pat"])}
+                vals = []
+                _tail_values(F, arm["body"], vals)
+                if vals and all(peel_value(v).get("k") == "Field" and peel_value(v)["field"] == "referrer_module" and peel_value(peel_value(v)["e"]).get("lid") in binds for v in vals):
+                    ok = True
+    R.ob("C09-T", "a name found through `export *` is traced at the re-exporting hop", ok,
+         "analyze_module_info no longer maps a ReExportAllPath to its `referrer_module` when it queues the follow-up trace: intermediate `export *` statements of a chain are not retained, so an importer's `import { X } from './barrel.ts'` names an export the emitted barrel does not have",
+         am["file"], key="C09|C09-T|star-chain-next-hop")
